@@ -403,6 +403,33 @@ def f0():
 """ % s}, ["date", "path", "od"]
 
 
+def T_argument_expressions(s):
+    """arguments of keeps and calls that are expressions, not constants: signed numbers, sums, tuples, a literal behind a name"""
+    s2 = _Zero(s)
+    s2["lag1"] = s2["lag"] + 1
+    s2["neg1"] = s2["neg"] + 2
+    return {"main": HEAD + """
+def shifted(k):
+    return term('shifted#%(sh)d', k)
+
+def scaled(k, w=1.5):
+    return term('scaled#%(sc)d', k, w)
+
+def f1():
+    a = dds.keep('/x/lag', shifted, %(lag1)d)
+    b = dds.keep('/x/lead', shifted, -%(lag1)d)
+    c = dds.keep('/x/neg', scaled, -%(neg1)d, w=-0.5)
+    d = dds.keep('/x/pos', scaled, %(neg1)d, w=+0.5)
+    e = scaled(-%(pos)d - 1)
+    g = shifted((%(tup)d, -1))
+    h = shifted(not %(tup)d)
+    return term('f1', a, b, c, d, e, g, h)
+
+def f0():
+    return dds.keep('/x/p', f1)
+""" % s2}, ["sh", "sc", "lag", "neg", "pos", "tup"]
+
+
 class _Zero(dict):
     def __missing__(self, k):
         return 0
@@ -415,7 +442,7 @@ TEMPLATES = [T_class_fresh, T_class_object_first, T_inheritance, T_staticmethod,
              T_nested_and_comprehension, T_default_from_variable, T_method_calls_function, T_data_function_chain,
              T_class_attribute_from_variable, T_init_calls_function, T_from_import_variable, T_class_in_submodule,
              T_generator_and_conditional_expression, T_function_as_default_argument, T_reexport_and_relative_imports,
-             T_object_attribute_holds_object, T_variables_of_library_types]
+             T_object_attribute_holds_object, T_variables_of_library_types, T_argument_expressions]
 # T_module_level_lambda is not in the list: a lambda bound to a module variable is refused with an uncoded DDSException
 # ('Could not find call node'): outside the supported subset (the test-suite marks lambdas under dds.eval as not implemented)
 
